@@ -112,6 +112,8 @@ def gen_prop(rng, name, hostile=0.5, tuples=True, cards=True, falsy=True):
     else:
         dtype = rng.choice(SCALAR_DTYPES)
     n = rng.choice([0, 1, 1, 1, 2, 3, 4])
+    if rng.random() < 0.05:
+        n = rng.choice([10, 11, 12, 23])     # enough values for textual / numeric index order to differ
     values = [rand_value(rng, dtype, hostile) for _ in range(n)]
     p = {"k": "prop", "id": new_id(rng), "name": name, "dtype": dtype, "values": values}
     for a in ("unit", "reference", "definition", "dependency", "dependency_value", "value_origin"):
@@ -155,7 +157,7 @@ def gen_sec(rng, name, depth, budget, hostile=0.5, **kw):
                              rand_attr_text(rng, hostile)])}
     for a in ("definition", "reference"):
         s[a] = rand_attr_text(rng, hostile * 0.6) if rng.random() < 0.25 else None
-    s["repository"] = ("file:///nonexistent/terms_%d.xml" % rng.randrange(9)) if rng.random() < 0.1 else None
+    s["repository"] = ("file:///nonexistent/terms_%d.xml" % rng.randrange(2)) if rng.random() < 0.15 else None
     s["link"] = None
     s["include"] = None
     cards = kw.get("cards", True)
@@ -180,7 +182,7 @@ def gen_doc(rng, max_nodes=25, depth=3, hostile=0.5, **kw):
     d = {"k": "doc", "id": new_id(rng),
          "author": rand_attr_text(rng, hostile * 0.6) if rng.random() < 0.4 else None,
          "version": None, "date": rand_date(rng) if rng.random() < 0.4 else None,
-         "repository": "file:///nonexistent/terms.xml" if rng.random() < 0.1 else None}
+         "repository": ("file:///nonexistent/terms_%d.xml" % rng.randrange(2)) if rng.random() < 0.15 else None}
     v = rng.random()
     if v < 0.3:
         d["version"] = rng.choice(["1.0", "v2", rand_attr_text(rng, hostile * 0.6)])
